@@ -99,7 +99,7 @@ Arguments acc {A}. Arguments part {A}. Arguments feature {A}.
        for i in 0..len { let mut block1 = f1[i]; let block2 = &f2[i]; block1.mul_assign(block2); divided += block1.reduce_add(); }
        let f1_divisor = f1.iter().take(len).fold(0.0_f32, |acc, a| acc + a.mul(a).reduce_add());
        let f2_divisor = f2.iter().take(len).fold(0.0_f32, |acc, a| acc + a.mul(a).reduce_add());
-       divided / (f1_divisor * f2_divisor).sqrt() }                                                          *)
+       divided / (f1_divisor.sqrt() * f2_divisor.sqrt()) }                                                          *)
 
 Section Dist.
   Variable O : NumOps.
@@ -171,7 +171,7 @@ Definition Rops : NumOps := {|
 (* euclidean = sqrt of the accumulator *)
 Definition euclid (f1 f2 : list (block8 R)) : R := sqrt (sqdist Rops f1 f2).
 
-(* cosine = divided / sqrt(f1_divisor * f2_divisor) *)
+(* cosine = divided / (f1_divisor.sqrt() * f2_divisor.sqrt())   (the norms are multiplied, not the squared norms) *)
 Definition cosine (f1 f2 : list (block8 R)) : R :=
   let len := common_len Rops f1 f2 in
-  (dot Rops f1 f2 / sqrt (norm2 Rops len f1 * norm2 Rops len f2))%R.
+  (dot Rops f1 f2 / (sqrt (norm2 Rops len f1) * sqrt (norm2 Rops len f2)))%R.
